@@ -5,6 +5,9 @@ mode (this covers gzip.open, pickle targets, pyfaidx's .fai, lock files), os.rem
 os.makedirs of a missing directory, and gffutils.create_db (sqlite writes through C, treated as one mutation).
 Variant 'before': the call is not made; 'after': the call returns, then the process dies.  Death = os._exit(137):
 user-space buffers are lost, data already handed to the OS stays (kill -9 semantics).
+Variant 'torn' (open-for-write points only): the run goes on until THAT file is closed; the file then keeps only the first half of
+what was written to it and the process dies - the scaled-down picture of a kill in the middle of writing a file larger than one
+write buffer (the synthetic files are far smaller than 8 KB, so without this variant a file is only ever empty or complete).
 """
 import builtins
 import os
@@ -49,7 +52,23 @@ class Injector:
         def w_open(file, mode="r", *a, **kw):
             if isinstance(file, (str, bytes, os.PathLike)) and any(c in mode for c in "wax+"):
                 d = inj.point("open-" + mode.replace("b", "").replace("t", ""), os.fspath(file))
+                before = os.path.getsize(file) if ("a" in mode and os.path.exists(file)) else 0
                 f = o_open(file, mode, *a, **kw)
+                if d and inj.variant == "torn":
+                    o_close = f.close
+                    path = os.fspath(file)
+
+                    def torn_close():
+                        o_close()
+                        size = os.path.getsize(path)
+                        os.truncate(path, before + (size - before) // 2)
+                        inj.record("TORN %s %d -> %d" % (inj.normalise(path), size, before + (size - before) // 2))
+                        inj.die()
+                    try:
+                        f.close = torn_close
+                    except AttributeError:
+                        inj.die()           # the object does not take the hook: plain 'after' semantics
+                    return f
                 if d:
                     inj.die()
                 return f
